@@ -135,14 +135,25 @@ theorem C08_read_wf (t : Ast) (q : Query) (h : readFragment t = .ok q) : q.wf = 
   | error e => simp [hf] at h
   | ok f => simp only [hf] at h; exact Read.frag_wf f q h
 
-/-- **T3, reading**: renaming the atom labels of a fragment by any injective renaming `σ` (fresh,
-distinct names) changes nothing but the label names in what the reader returns — same outcome
-class, same atoms, bonds, constraints and stereo statements.  Every fragment, every length.
-(Stated on the typed fragment `Frag` the tree is first decoded into; layout and white space are
-consumed by the parser and do not reach the tree — C09.) -/
-theorem C08_alpha_read (σ : String → String) (hσ : Function.Injective σ) (f : Frag) :
+/-- **T3, reading, full statement**: renaming the labels by any injective renaming changes nothing
+but the label names in what the reader returns.  False of the code as it is (finding FM2): an atom
+*called* `AtomLabel` makes the reader fail with `TypeError` at the next bonded atom, so renaming a
+label to or from that word changes the outcome.  The failing input is exhibited on the real code
+by `corpus/C08/FM2.json` (the reader's element lookup goes through `String.toList`, which the
+kernel does not evaluate, so the refutation is not replayed in Lean). -/
+def C08_alpha_read_full : Prop :=
+  ∀ (σ : String → String), Function.Injective σ → ∀ f : Frag,
+    Read.frag (f.rename σ) = (Read.frag f).map (Query.relabel σ)
+
+/-- **T3, reading (proved part)**: renaming the atom labels of a fragment by any injective renaming
+`σ` that neither introduces nor removes the word `AtomLabel` changes nothing but the label names in
+what the reader returns — same outcome class, same atoms, bonds, constraints and stereo
+statements.  Every fragment, every length.  (Stated on the typed fragment `Frag` the tree is first
+decoded into; layout and white space are consumed by the parser and do not reach the tree — C09.) -/
+theorem C08_alpha_read_partial (σ : String → String) (hσ : Function.Injective σ)
+    (hAL : ∀ s, σ s = "AtomLabel" ↔ s = "AtomLabel") (f : Frag) :
     Read.frag (f.rename σ) = (Read.frag f).map (Query.relabel σ) :=
-  Read.frag_rename σ hσ f
+  Read.frag_rename σ hσ hAL f
 
 /-- **T3, label names are not part of a query's meaning**: relabelling a query leaves its matches
 on every molecule unchanged. -/
@@ -152,10 +163,12 @@ theorem C08_labels_irrelevant (σ : String → String) (q : Query) (m : Mol) :
 
 /-- **T3**: the matches of a fragment do not depend on the choice of label names: for every
 fragment, every injective renaming and every molecule, reading the renamed fragment and matching
-gives the same outcome (same error, or the same list of matches). -/
-theorem C08_alpha_matches (σ : String → String) (hσ : Function.Injective σ) (f : Frag) (m : Mol) :
+gives the same outcome (same error, or the same list of matches).  Guard as in
+`C08_alpha_read_partial`. -/
+theorem C08_alpha_matches_partial (σ : String → String) (hσ : Function.Injective σ)
+    (hAL : ∀ s, σ s = "AtomLabel" ↔ s = "AtomLabel") (f : Frag) (m : Mol) :
     (Read.frag (f.rename σ)).map (queryMatches · m) = (Read.frag f).map (queryMatches · m) := by
-  rw [C08_alpha_read σ hσ f]
+  rw [C08_alpha_read_partial σ hσ hAL f]
   cases Read.frag f with
   | error e => rfl
   | ok q => simp only [Except.map]; rw [C08_labels_irrelevant]
@@ -180,12 +193,20 @@ theorem swapAB_injective : Function.Injective swapAB := by
   intro x y h
   rw [← inv x, ← inv y, h]
 
+theorem swapAB_fixes (s : String) : swapAB s = "AtomLabel" ↔ s = "AtomLabel" := by
+  unfold swapAB
+  by_cases h1 : s = "a"
+  · subst h1; decide
+  · by_cases h2 : s = "b"
+    · subst h2; decide
+    · simp [h1, h2]
+
 /-- non-vacuity of T3: an injective renaming that really moves the labels of the example -/
 example : (exFrag.rename swapAB).label0 = "b" := by decide
 
 example (m : Mol) : (Read.frag (exFrag.rename swapAB)).map (queryMatches · m) =
     (Read.frag exFrag).map (queryMatches · m) :=
-  C08_alpha_matches swapAB swapAB_injective exFrag m
+  C08_alpha_matches_partial swapAB swapAB_injective swapAB_fixes exFrag m
 
 /-! ## The cap of 10 000 candidates (F30) -/
 
